@@ -224,4 +224,29 @@ theorem epanet_run_preserves_toDict {V : Type} (E : Elems) (s : State V) (t : Tr
     toDict toDictReadsModuloRuleName E (run s t) = toDict toDictReadsModuloRuleName E s :=
   epanet_run_preserves_definition _ (toDict_readsOnly _ E) s t ht
 
+
+/-! ## 5. the INP writer reads only definition slots -/
+
+/-- **decided on the regenerated tables**: the storage fields the INP writer (`InpFile.write` and every `_write_*`;
+EpanetSimulator = write INP + run EPANET) reads that a simulator run can write: the pump speed (definition slot written by
+`base_speed` actions — the known finding), the rule name it assigns itself, and its own cached handle. No run-time slot
+(`_setting`, `_user_status`, `_head`, `_flow`, …) is read. -/
+theorem inp_writer_reads_overlap : overlap written inpWriterReads =
+    [⟨"HeadPump", "_speed_timeseries.base_value"⟩, ⟨"PowerPump", "_speed_timeseries.base_value"⟩,
+     ⟨"Rule", "_name"⟩, ⟨"WaterNetworkModel", "_inpfile"⟩] := by decide +kernel
+
+/-- write-set of runs that cannot influence the INP text -/
+def writtenInvisibleToInp : List Slot := written.filter fun w => !decide (w ∈ inpWriterReads)
+
+/-- **inp_file_independent_of_runtime_state.** Whatever a WNTRSimulator run without `base_speed` action wrote (statuses,
+valve settings, heads, flows, leak flags, …) and whether or not `reset_initial_values` was called: every function of the
+slots the INP writer reads — the INP text, hence what EpanetSimulator simulates — is the same as before the run. -/
+theorem inp_file_independent_of_runtime_state {V D : Type} (f : State V → D) (hf : ReadsOnly inpWriterReads f)
+    (s : State V) (t : Trace V) (ht : t.within writtenInvisibleToInp) : f (run s t) = f s :=
+  run_preserves_view writtenInvisibleToInp inpWriterReads (overlap_filter_not_mem written inpWriterReads) f hf s t ht
+
+/-- non-vacuity: valve settings and statuses written by controls are invisible to the INP writer -/
+example : (⟨"PRValve", "_setting"⟩ : Slot) ∈ writtenInvisibleToInp ∧ (⟨"Pipe", "_user_status"⟩ : Slot) ∈ writtenInvisibleToInp ∧
+    (⟨"Tank", "_head"⟩ : Slot) ∈ writtenInvisibleToInp := by decide +kernel
+
 end Wntr.Frame
